@@ -136,12 +136,38 @@ class Engine:
                 v = self
             def imm(x):
                 return isinstance(x, (int, str, bytes, float, bool, type(None))) or (isinstance(x, tuple) and all(imm(y) for y in x))
+            rebound = any(isinstance(g, ast.Global) and name in g.names for g in ast.walk(m.tree))
             if v is not self and imm(v) and not isinstance(v, tuple):
-                rebound = any(isinstance(g, ast.Global) and name in g.names for g in ast.walk(m.tree))
                 if not rebound:
                     out = C(v)
+            elif v is self and not rebound and isinstance(vals[0], ast.Call):
+                # an immutable record built once at import time: a NamedTuple instance, a
+                # functools.partial, an operator.itemgetter - the value itself is used
+                cache[key] = None  # (guards against cycles while evaluating)
+                t = self.static_term(m, vals[0])
+                if t is not None and self._immutable_value(t):
+                    out = t
         cache[key] = out
         return out
+
+    def _immutable_value(self, t):
+        from .terms import is_const as _is_const
+
+        if not isinstance(t, tuple) or not t:
+            return False
+        if _is_const(t):
+            return True
+        if t[0] == "global" and len(t) == 2 and not t[1].startswith("const:"):
+            return True
+        if t[0] == "nt" and len(t) == 3:
+            return all(self._immutable_value(x) for x in t[2])
+        if t[0] == "partial" and len(t) == 4:
+            return self._immutable_value(t[1]) and all(self._immutable_value(x) for x in t[2]) and all(self._immutable_value(v) for _n, v in t[3])
+        if t[0] == "closure" and len(t) == 3:
+            return not t[2]
+        if t[0] == "lit" and len(t) == 4 and t[1] == "tuple":
+            return all(self._immutable_value(x) for x in t[2])
+        return False
 
     def static_term(self, mod, node):
         """term of a module-level expression (constants, displays, names, simple calls)"""
